@@ -96,7 +96,7 @@ func c08prop(ev *evid.Rec) func(rt *rapid.T) {
 		}
 		comment := ""
 		if storedInfo {
-			comment = rapid.SampledFrom([]string{"", "a comment", strings.Repeat("c", 300)}).Draw(rt, "comment")
+			comment = rapid.SampledFrom([]string{"", "a comment", strings.Repeat("c", 300), strings.Repeat("L", 32600), strings.Repeat("M", 32768), strings.Repeat("N", 40000), strings.Repeat("O", 65535)}).Draw(rt, "comment") // a comment may be as long as a field: the stored info fork then exceeds 32 KiB
 		}
 		mode := rapid.SampledFrom([]string{"plain", "plain", "resume", "resume", "preview"}).Draw(rt, "mode")
 		k := 0
